@@ -67,8 +67,8 @@ def run_complete(ctx, scn):
     except OSError as e:
         return {"name": scn["name"], "open": scn["open"], "steps": [], "skipped": f"cannot create: {e}"}
     opening = OPEN[scn["open"]]
-    k = scn.get("typed", 0)
-    typed = opening + name[:k]
+    k = scn.get("typed", 0)  # in symbols of the name
+    typed = opening + name_of(scn["name"][:k])
     ca = scn.get("closing", "no") if opening != "" else "no"
     if scn.get("closing_after"):
         ca = "after"
